@@ -265,15 +265,36 @@ def r16d(run, C):
                 unparse(a) == f"{t} in self._cache" and p for a, p in fa.facts.atoms_at(n))
             run.check("R16d", f, "the memo is read for the resolved type only", ok, construct="memo read",
                       message=f"`{norm_stmt(n.ast)}` reads the memo under a different key", node=n.ast)
+        if n.kind == "stmt" and isinstance(n.ast, ast.Assign) and isinstance(n.ast.value, ast.Call) \
+                and unparse(n.ast.value.func) == "self._cache.get":
+            # idiom: cached = self._cache.get(t); if cached is not None: return cached   (one atomic read)
+            c = n.ast.value
+            var = unparse(n.ast.targets[0])
+            ok = bool(c.args) and unparse(c.args[0]) == t and (len(c.args) == 1 or unparse(c.args[1]) == "None")
+            rets_v = [m for m in fa.cfg.nodes if m.kind == "stmt" and isinstance(m.ast, ast.Return)
+                      and unparse(m.ast.value) == var and fa.cfg.dominates(n, m)]
+            ok = ok and bool(rets_v) and all(any(
+                (unparse(a) == f"{var} is not None" and p) or (unparse(a) == f"{var} is None" and not p)
+                or (unparse(a) == var and p) for a, p in fa.facts.atoms_at(m)) for m in rets_v)
+            run.check("R16d", f, "the memo is read for the resolved type only (get-then-test)", ok,
+                      construct="memo read", message=f"`{norm_stmt(n.ast)}` reads the memo under a different key or "
+                      f"returns it without testing the hit", node=n.ast)
     # order: shortcut test dominates the memo read, which dominates the scan; base fallback after the scan
     sc = [n for n in fa.cfg.nodes if n.kind == "test" and "self.shortcut" in unparse(n.ast)]
-    memo = [n for n in fa.cfg.nodes if n.kind == "test" and "self._cache" in unparse(n.ast)]
+    memo = [n for n in fa.cfg.nodes if n.kind in ("test", "stmt") and n.ast is not None and "self._cache" in unparse(n.ast)
+            and not (isinstance(n.ast, ast.Assign) and isinstance(n.ast.targets[0], ast.Subscript))]
+    memo.sort(key=lambda x: x.id)
     base = [n for n in fa.cfg.nodes if n.kind in ("test", "stmt") and "self.base" in unparse(n.ast)]
-    ok = bool(sc and memo and base) and fa.cfg.dominates(sc[0], memo[0]) and fa.cfg.dominates(memo[0], lp) \
-        and all(fa.cfg.dominates(lp, b) for b in base)
+    # the memo read lies before the scan (never after it) on every path that performs it
+    ok = bool(sc and memo and base) and fa.cfg.dominates(sc[0], memo[0]) and fa.cfg.can_reach(memo[0], lp, kinds=(N,)) \
+        and not fa.cfg.can_reach(lp, memo[0], kinds=(N,)) and all(fa.cfg.dominates(lp, b) for b in base)
     run.check("R16d", f, "resolve consults shortcut, memo, the list, the base registry, the default - in that order", ok,
               construct="resolve order", message="TypeRegistry.resolve does not consult shortcut -> memo -> scan -> "
               "base -> default in this order", necessity="a base registration could shadow an own registration")
+    memo_guard = any(unparse(a) == "self.cache" and p for a, p in fa.facts.atoms_at(memo[0])) or (
+        memo and memo[0].kind == "test" and "self.cache" in unparse(memo[0].ast)) if memo else False
+    run.check("R16d", f, "the memo is consulted only when caching is enabled", bool(memo_guard), construct="memo read flag",
+              message="TypeRegistry.resolve reads the memo without testing self.cache")
     # the two registries are created with the documented settings
     for mod, owner in (("utype.utils.transform", "TypeTransformer"), ("utype.utils.encode", None)):
         m = run.repo.module(mod)
